@@ -1916,10 +1916,27 @@ class Interp:
         return self._getattr(self.eval(e.value, fr), self.mangle(e.attr, fr))
 
     def e_Tuple(self, e, fr):
-        return PList(self, self.eval_elts(e.elts, fr), frozen=True)
+        return self._display(e, fr, True)
 
     def e_List(self, e, fr):
-        return PList(self, self.eval_elts(e.elts, fr))
+        return self._display(e, fr, False)
+
+    def _display(self, e, fr, frozen):
+        """[a, *b, c]: a starred symbolic-length list is spliced in without forking on its length"""
+        if not any(isinstance(x, ast.Starred) for x in e.elts):
+            return PList(self, [self.eval(x, fr) for x in e.elts], frozen=frozen)
+        acc = PList(self, [], frozen=frozen)
+        for x in e.elts:
+            if isinstance(x, ast.Starred):
+                v = self.resolve(self.eval(x.value, fr))
+                if isinstance(v, PList):
+                    part = PList(self, v.elems, v.sym_n, frozen)
+                else:
+                    part = PList(self, list(self.iterate(v)), frozen=frozen)
+            else:
+                part = PList(self, [self.eval(x, fr)], frozen=frozen)
+            acc = self.binop(ast.Add(), acc, part)
+        return acc
 
     def eval_elts(self, elts, fr):
         out = []
